@@ -174,6 +174,13 @@ func c12ViewOf(dir string, w *workspace.Workspace) c12View {
 			fk[rel(p)] = true
 		}
 		v.Exact["resolved.FileOrder is a duplicate-free listing of resolved.Files"] = fmt.Sprint(!dup && sameSet(fo, fk))
+		// the order decides which of two conflicting templates / formats answers a
+		// request and the order of completion lists
+		var order []string
+		for _, p := range res.FileOrder {
+			order = append(order, rel(p))
+		}
+		v.Exact["order of the member files"] = fmt.Sprint(order)
 	}
 	v.Members = keys(mem)
 	v.Exact["member files"] = fmt.Sprint(v.Members)
